@@ -43,8 +43,8 @@ import (
 
 const (
 	networkID      = uint64(77)
-	handlerTimeout = 3 * time.Second // a handler / client read that has not returned by then is logged as returned=false
-	followTimeout  = 4 * time.Second
+	handlerTimeout = 8 * time.Second // a handler / client read that has not returned by then is logged as returned=false
+	followTimeout  = 8 * time.Second
 )
 
 var _ = accmock.NewAccounting
@@ -55,6 +55,7 @@ type world struct {
 	tracer  *tracing.Tracer
 	rng     *rand.Rand
 	store   *localstore.DB
+	mdb     *shed.DB
 	nodeKey *ecdsa.PrivateKey
 	self    boson.Address
 	peers   []*peerFix // honest peers (keys, overlays, underlays, signed records)
@@ -239,10 +240,15 @@ func (n *node) withKad() error {
 	if n.kad != nil {
 		return nil
 	}
-	mdb, err := shed.NewDB("", nil)
-	if err != nil {
-		return err
+	// the peer-metrics database is shared by the scenarios of one process (opening one costs ~0.1 s)
+	if n.w.mdb == nil {
+		mdb, err := shed.NewDB("", nil)
+		if err != nil {
+			return err
+		}
+		n.w.mdb = mdb
 	}
+	mdb := n.w.mdb
 	n.mdb = mdb
 	kad, err := kademlia.New(n.self, n.book, discmock.NewDiscovery(), n.p2ps, nil, n.light, nil, mdb, n.w.logger, n.subPub,
 		kademlia.Options{BinMaxPeers: 10, NodeMode: aurora.NewModel().SetMode(aurora.FullNode)})
@@ -264,7 +270,6 @@ func (n *node) withKad() error {
 			kad.AddPeers(p.overlay)
 		}
 	}
-	n.cleanup = append(n.cleanup, func() { _ = mdb.Close() })
 	return nil
 }
 
